@@ -298,6 +298,17 @@ func processJob(prom *Prometheus, job queryRequest) queryResult {
 	return result
 }
 
+// bodyError returns the real reason why reading a response failed: if the request
+// context is done (we hit our own timeout or the request was cancelled) while the
+// body was being read then that is the error, not whatever the decoder made of
+// a response that was cut short.
+func bodyError(ctx context.Context, err error) error {
+	if err != nil && ctx.Err() != nil {
+		return ctx.Err()
+	}
+	return err
+}
+
 func formatTime(t time.Time) string {
 	return strconv.FormatFloat(float64(t.Unix())+float64(t.Nanosecond())/1e9, 'f', -1, 64)
 }
